@@ -140,11 +140,13 @@ pub struct Interner<'a> {
     pub types: Vec<Value>,
     /// every closed instantiation (definition index, arguments) that was interned
     pub insts: Vec<(usize, Vec<Src>)>,
+    /// per id: the index of the source definition the entry is an instantiation of
+    pub def_of: Vec<Option<usize>>,
 }
 
 impl<'a> Interner<'a> {
     pub fn new(defs: &'a [Def]) -> Self {
-        Interner { defs, ids: HashMap::new(), types: vec![], insts: vec![] }
+        Interner { defs, ids: HashMap::new(), types: vec![], insts: vec![], def_of: vec![] }
     }
 
     fn alloc(&mut self, key: String) -> Result<u32, u32> {
@@ -154,6 +156,7 @@ impl<'a> Interner<'a> {
         let id = self.types.len() as u32;
         self.ids.insert(key, id);
         self.types.push(Value::Null);
+        self.def_of.push(None);
         Ok(id)
     }
 
@@ -201,6 +204,7 @@ impl<'a> Interner<'a> {
             Src::BoxT(_) => unreachable!(),
             Src::App(di, args) => {
                 self.insts.push((*di, args.clone()));
+                self.def_of[id as usize] = Some(*di);
                 let d = self.defs[*di].clone();
                 let mut params = vec![];
                 for (i, (n, skipped)) in d.params.iter().enumerate() {
@@ -347,6 +351,16 @@ pub fn build(p: &Program) -> (Value, Vec<u32>) {
     let mut it = Interner::new(&p.defs);
     let roots: Vec<u32> = p.roots.iter().map(|r| it.intern(r)).collect();
     (it.finish(), roots)
+}
+
+/// the registry and, per entry, the source definition it instantiates (`None` for built-in shapes)
+pub fn build_labelled(p: &Program) -> (Value, Vec<Option<usize>>) {
+    let mut it = Interner::new(&p.defs);
+    for r in &p.roots {
+        it.intern(r);
+    }
+    let labels = it.def_of.clone();
+    (it.finish(), labels)
 }
 
 pub fn build_with_insts(p: &Program) -> (Value, Vec<(usize, Vec<Src>)>) {
